@@ -238,3 +238,55 @@ Print Assumptions C13_size_between_const_R.
 Print Assumptions C13_size_in_epoch_between_R.
 Print Assumptions C13_size_at_between_R.
 Print Assumptions C13_size_in_epoch_total_R.
+
+(* ---- BEGIN binary64 instances (generated by harness/mkinst.py) ---- *)
+(* Binary64 (the NumF instance: Coq's primitive floats): the between-ness clause is REFUTED in the last place.  A valid
+   linear epoch from 1000 to 0 queried at t = 1e-20 (or at 5e-324, the float next to the epoch end): t is not isclose to
+   the end (abs_tol = 0), the weight (s - t) / (s - e) rounds to 1, and ss + (es - ss) * 1 is two floats below es.
+   Everything is evaluated by vm_compute; the statements of C13_size_between_linear_R and C13_size_at_between_R with
+   NumF for NumR are shown false.  This is the recorded finding F24; the check allows a relative 1e-9 and reports
+   anything inside it as that finding.  Print Assumptions lists only primitive-float operations. *)
+From Coq Require Import Floats.
+From Demes Require Import Base.NumF Proofs.SizeBetweenRefutedF.
+
+Theorem C13_size_between_linear_refuted_F :
+  exists (d : @deme NumF) (e : @epoch NumF) (t v : @Demes.Base.Num.num NumF),
+    In e (d_epochs d) /\ @ValidEpoch NumF e /\ e_sf e = "linear" /\
+    @epoch_owns NumF t e = true /\ @isclose0 NumF t (e_end e) = false /\
+    @size_at NumF d t = Ok v /\
+    @nlt NumF v (e_esize e) = true /\ @nlt NumF v (e_ssize e) = true.
+Proof. exact size_between_linear_refuted_F. Qed.
+
+Theorem C13_size_between_linear_refuted_next_F :
+  exists (d : @deme NumF) (e : @epoch NumF) (t v : @Demes.Base.Num.num NumF),
+    In e (d_epochs d) /\ @ValidEpoch NumF e /\ e_sf e = "linear" /\
+    t = next_up (e_end e) /\
+    @epoch_owns NumF t e = true /\ @isclose0 NumF t (e_end e) = false /\
+    @size_at NumF d t = Ok v /\
+    @nlt NumF v (e_esize e) = true /\ @nlt NumF v (e_ssize e) = true.
+Proof. exact size_between_linear_refuted_next_F. Qed.
+
+Theorem C13_size_between_linear_statement_false_F :
+  ~ (forall (e : @epoch NumF) (t v : @Demes.Base.Num.num NumF),
+       @ValidEpoch NumF e -> e_sf e = "linear" -> @epoch_owns NumF t e = true ->
+       @size_in_epoch NumF e t = Ok v ->
+       (@nle NumF (e_ssize e) v && @nle NumF v (e_esize e) = true) \/
+       (@nle NumF (e_esize e) v && @nle NumF v (e_ssize e) = true)).
+Proof. exact size_between_linear_statement_false_F. Qed.
+
+Theorem C13_size_at_between_statement_false_F :
+  ~ (forall (d : @deme NumF) (t v : @Demes.Base.Num.num NumF),
+       (forall e, In e (d_epochs d) -> @ValidEpoch NumF e) ->
+       @size_at NumF d t = Ok v ->
+       v = @n0 NumF
+       \/ (exists e es', d_epochs d = e :: es' /\ v = e_ssize e /\ @nisinf NumF t = true)
+       \/ (exists e, In e (d_epochs d) /\ @epoch_owns NumF t e = true /\
+             ((@nle NumF (e_ssize e) v && @nle NumF v (e_esize e) = true) \/
+              (@nle NumF (e_esize e) v && @nle NumF v (e_ssize e) = true)))).
+Proof. exact size_at_between_statement_false_F. Qed.
+
+Print Assumptions C13_size_between_linear_refuted_F.
+Print Assumptions C13_size_between_linear_refuted_next_F.
+Print Assumptions C13_size_between_linear_statement_false_F.
+Print Assumptions C13_size_at_between_statement_false_F.
+(* ---- END binary64 instances ---- *)
